@@ -10,6 +10,8 @@ it emits every (ratios, n0, limit, query level).  Each is replayed on a properly
   what = "read"  (C20, C01)  accepted => every box reads completely and consistently
   what = "point" (C19)  interior cell centres of the query level (finest level covering them) return the stored value;
                         a point outside the domain is refused
+  what = "grid"  (C10)  whip's uniform grid is the covering grid at the scenario's limit (a level's cells are Fac(l) per level-0 cell)
+  what = "plate" (C08)  mandoline's 2-D flattening is the covering grid at the scenario's limit
 """
 import itertools
 import os
@@ -77,8 +79,8 @@ def write(chk, sc, cfgseed, ndims, split):
 
 
 def run_one(chk, sc, cfgseed, what):
-    ndims = 3 if what == "point" else (2 if cfgseed % 3 == 0 else 3)
-    d, ap, cfg_, reg = write(chk, sc, cfgseed, ndims, split=(what != "point"))
+    ndims = 3 if what in ("point", "grid") else (2 if what == "plate" or cfgseed % 3 == 0 else 3)
+    d, ap, cfg_, reg = write(chk, sc, cfgseed, ndims, split=(what != "point" and cfgseed % 2 == 0))
     before = alpha.tree_digest(d)
     ds = spell.of(d, cfgseed)[0]
     rs = list(sc["ratios"])
@@ -93,6 +95,8 @@ def run_one(chk, sc, cfgseed, what):
             v = T.read_consistency(d, {"lim": sc["lim"]}, ndims, open_as=ds)
     elif what == "point":
         v = point(ds, ap, cfg_, reg, sc, cfgseed)
+    elif what in ("grid", "plate"):
+        v = cover(chk, ds, d, ap, cfg_, reg, sc, cfgseed, what)
     if v is None and alpha.tree_digest(d) != before:
         v = "the plotfile was modified"
     if v:
@@ -204,6 +208,65 @@ def point(ds, ap, cfg_, reg, sc, cfgseed):
     return "point %r outside the domain was answered with %r" % (out, got)
 
 
+def covering_grid(ap, cfg_, reg, lim, fi):
+    """The covering grid of field fi at level lim (CoverSpec with Fac in place of 2**l): finer boxes overwrite coarser ones."""
+    nd = ap["ndims"]
+    R = [gamma.rfac(cfg_, l) for l in range(lim + 1)]
+    shape = [n * R[lim] for n in ap["dom"]]
+    exp = np.full(shape, np.nan)
+    glev = np.full(shape, -1.0)
+    for l in range(lim + 1):
+        f = R[lim] // R[l]
+        for b, box in enumerate(ap["levels"][l]["boxes"], 1):
+            arr = reg.array_of(("A", l, b, fi)).reshape(gamma.box_shape(box), order="F")
+            for ax in range(nd):
+                arr = np.repeat(arr, f, axis=ax)
+            sl = tuple(slice(a * f, (h + 1) * f) for a, h in zip(box["lo"], box["hi"]))
+            exp[sl] = arr
+            glev[sl] = l
+    return exp, glev
+
+
+def cover(chk, ds, d, ap, cfg_, reg, sc, cfgseed, what):
+    lim = sc["lim"]
+    fi = 1 + cfgseed % len(FIELDS)
+    exp, glev = covering_grid(ap, cfg_, reg, lim, fi)
+    rng = random.Random(cfgseed)
+    try:
+        with shims.pool_shim(shims.Scheduler(default="random", rng=rng)), shims.poison(1.2345e300), core.quiet():
+            if what == "grid":
+                import sys
+                from amr_kitchen.whip import cli
+                out = os.path.join(os.path.dirname(d), "grid")
+                old = sys.argv
+                sys.argv = ["whip", "-v", FIELDS[fi - 1], "-o", out, "-y", "-l", str(lim), ds]
+                try:
+                    cli.main()
+                finally:
+                    sys.argv = old
+                got = np.load(out + ".npy")
+                gl = None
+            else:
+                from amr_kitchen.mandoline import Mandoline
+                res = Mandoline(ds, fields=[FIELDS[fi - 1], "grid_level"], limit_level=lim, serial=bool(cfgseed % 2), verbose=0).slice(fformat="return")
+                got = np.asarray(res[FIELDS[fi - 1]]).T
+                gl = np.asarray(res["grid_level"]).T
+    except SystemExit as e:
+        return "%s exited with %r" % (what, e.code)
+    except Exception as e:
+        return "%s (limit %d) raised %s: %s" % ("whip" if what == "grid" else "mandoline", lim, type(e).__name__, str(e)[:160])
+    if got.shape != exp.shape:
+        return "the %s has shape %r, the level-%d covering grid is %r" % (what, got.shape, lim, exp.shape)
+    if got.tobytes() != exp.tobytes():
+        bad = np.argwhere(got != exp)
+        k = tuple(int(x) for x in bad[0])
+        return "cell %r of the level-%d %s holds %r, the finest selected level covering it (level %d) stores %r (%d cells differ)" % (
+            k, lim, what, float(got[k]), int(glev[k]), float(exp[k]), len(bad))
+    if gl is not None and not np.array_equal(gl, glev):
+        return "grid_level differs from the level of the finest box over the pixel"
+    return None
+
+
 def phase(chk, what):
     r = chk.add_tlc(tlc.run("MC_Refine", models(chk.tier), timeout=600), "refinement ratios (MC_Refine)")
     if r.violated:
@@ -213,6 +276,8 @@ def phase(chk, what):
     scs = r.emitted
     if what == "point":
         scs = [s for s in scs if s["lim"] == len(s["ratios"])]
+    elif what in ("grid", "plate"):
+        scs = [s for s in scs if s["ql"] == 0 and s["n0"] == 4]
     else:
         scs = [s for s in scs if s["ql"] == 0]
     cap = 80 if chk.tier == "quick" else 600
